@@ -288,6 +288,8 @@ def r7_reaper_cannot_die(ctx):
 
 
 def run(ctx):
+    from . import effects
+    effects.check_property(ctx, "C12")    # R12.E: no operation on shared protocol state outside the reviewed table
     r7_reaper_cannot_die(ctx)
     r1_entry_points(ctx)
     r2_to_r6_reapers(ctx)
